@@ -13,7 +13,7 @@ for ID in "$@"; do
   OUT=$(cd /verif && ./check "$ID" --tier "$TIER" 2>&1 | grep -v conda)
   rc=$?
   n=$(echo "$OUT" | grep -c '^VIOLATION')
-  keys=$(echo "$OUT" | grep -E "^  $ID/" | sed -E 's/^  ([^:]+):.*/\1/' | tr '\n' ' ')
+  keys=$(echo "$OUT" | grep -E "^  $ID/" | sed -E 's/^  ([^ ]+): .*/\1/' | sort -u | head -4 | tr '\n' ' ')
   echo "SEED $(basename $(dirname $PATCH))/$(basename $PATCH) $ID violations=$n keys=$keys"
   [ -n "$SEED_VERBOSE" ] && echo "$OUT" | tail -20
 done
